@@ -7,31 +7,36 @@ impl VMLocalPinningBitSpec {
     /// Pin an object by setting the pinning bit to 1.
     /// Return true if the object is pinned in this operation.
     pub fn pin_object<VM: VMBinding>(&self, object: ObjectReference) -> bool {
-        let res = self.compare_exchange_metadata::<VM, u8>(
-            object,
-            0,
-            1,
-            None,
-            Ordering::SeqCst,
-            Ordering::SeqCst,
-        );
-
-        res.is_ok()
+        self.attempt_transition::<VM>(object, 0, 1)
     }
 
     /// Unpin an object by clearing the pinning bit to 0.
     /// Return true if the object is unpinned in this operation.
     pub fn unpin_object<VM: VMBinding>(&self, object: ObjectReference) -> bool {
-        let res = self.compare_exchange_metadata::<VM, u8>(
-            object,
-            1,
-            0,
-            None,
-            Ordering::SeqCst,
-            Ordering::SeqCst,
-        );
+        self.attempt_transition::<VM>(object, 1, 0)
+    }
 
-        res.is_ok()
+    /// Atomically change the pinning bit from `old` to `new`.
+    /// Return true if the bit is changed by this operation, false if it did not have the value `old`.
+    fn attempt_transition<VM: VMBinding>(&self, object: ObjectReference, old: u8, new: u8) -> bool {
+        loop {
+            match self.compare_exchange_metadata::<VM, u8>(
+                object,
+                old,
+                new,
+                None,
+                Ordering::SeqCst,
+                Ordering::SeqCst,
+            ) {
+                Ok(_) => return true,
+                // The pinning bit shares its byte with other metadata bits, and the underlying
+                // compare-exchange operates on the whole byte: it also fails when only a
+                // neighbouring bit changed concurrently.  Give up only if the pinning bit itself
+                // does not have the expected value.
+                Err(actual) if actual != old => return false,
+                Err(_) => continue,
+            }
+        }
     }
 
     /// Check if an object is pinned.
